@@ -84,6 +84,23 @@ func (r *rewriter) rewriteStmts(list []ast.Stmt) []ast.Stmt {
 				out = append(out, st, r.yieldStmt("wake", s.Pos()))
 				continue
 			}
+			// G6: a zero-argument call whose name ends in cancel/done (context.CancelFunc values, WaitGroup.Done,
+			// buffer.Done): it may release waiters, so the caller parks right after it and the scheduler decides
+			// whether the releaser or the released runs first
+			if c, ok := s.X.(*ast.CallExpr); ok && len(c.Args) == 0 {
+				name := ""
+				switch f := c.Fun.(type) {
+				case *ast.Ident:
+					name = f.Name
+				case *ast.SelectorExpr:
+					name = f.Sel.Name
+				}
+				ln := strings.ToLower(name)
+				if strings.HasSuffix(ln, "cancel") || strings.HasSuffix(ln, "done") {
+					out = append(out, st, r.yieldStmt("signal", s.Pos()))
+					continue
+				}
+			}
 			if isRecv(s.X) {
 				out = append(out, st, r.yieldStmt("wake", s.Pos()))
 				continue
